@@ -229,13 +229,17 @@ func TestVerifC12SingleReplica(t *testing.T) {
 				return true
 			}
 			for _, op := range ops {
-				opStart := time.Now()
-				defer func(op verifC12SingleOp) { fmt.Printf("DEVTIME %s %v\n", op.String(), time.Since(opStart)) }(op)
 				switch op.Kind {
 				case "burst":
 					ids := d.burst(op.Slot, op.N)
 					if op.Wait && d.waitResolved(ids) != nil {
 						stuck = "proposals unresolved"
+						if r := d.node().runtime(); r != nil {
+							for sl := 1; sl <= cfg.Slots; sl++ {
+								st, err := r.Status(multiraft.SlotID(sl))
+								stuck += fmt.Sprintf(" [s%d role=%d term=%d commit=%d applied=%d err=%v]", sl, st.Role, st.Term, st.CommitIndex, st.AppliedIndex, err)
+							}
+						}
 						return
 					}
 				case "restart":
@@ -302,6 +306,9 @@ func TestVerifC12SingleReplica(t *testing.T) {
 			rt.Fatalf("C12 violated (history saved to %s)\ncase: %s\n  %s", path, desc.String(), strings.Join(facts.Violations, "\n  "))
 		}
 		if stuck != "" {
+			fmt.Printf("DEVSTUCK %s :: %s\n", stuck, desc.String())
+			if r := d.node().runtime(); r != nil {
+			}
 			// a bounded wait ran out: not a verdict
 			rt.Skip("not judged: " + stuck)
 		}
